@@ -60,6 +60,10 @@ func c08Key(r *rand.Rand, id string) (M, M) {
 	r.Shuffle(len(all), func(i, j int) { all[i], all[j] = all[j], all[i] })
 	ps := all[:1+r.Intn(len(all))]
 	jwk := jwkNoEmptyY(opb.NewKey(r, kt).JWK())
+	if typ == "JsonWebKey2020" && r.Intn(6) == 0 {
+		// the one supported key whose JWK is written with kty EC and has no y
+		typ, jwk = "Bls12381G2Key2020", blsJWK(r)
+	}
 	psI := make([]interface{}, len(ps))
 	for i, p := range ps {
 		psI[i] = p
